@@ -144,6 +144,10 @@ class Loose(object):
         return self._rec.bundle.valid_qualified_name(x)
 
 
+class NoSuchObject(Exception):
+    pass
+
+
 class World(object):
     """Live objects of one behaviour, addressed by the spec's handle names."""
 
@@ -238,7 +242,15 @@ class World(object):
         if kind == "dt":
             return v.isoformat()
         if kind == "float":
-            return repr(v)
+            # valid xsd:double lexical forms of the same number: shortest repr, exponent form, and the
+            # integral spelling ("1" for 1.0) - the stored value must be the float in every case
+            forms = [repr(v), "%.17e" % v]
+            if v == int(v) and abs(v) < 1e15:
+                forms.append(str(int(v)))
+            return forms[self.salt % len(forms)]
+        if kind == "int":
+            forms = [str(v), "+" + str(v) if v >= 0 else str(v), "0" + str(v) if v >= 0 else str(v)]
+            return forms[self.salt % 3]
         return str(v)
 
     def value(self, iv):
@@ -633,10 +645,28 @@ class World(object):
     def note(self, a):
         self.hist_so_far.append(a)
 
+    def named_handles(self, a):
+        hs = [a.get(k) for k in ("h", "arg", "other")] + list(a.get("hs", []))
+        for k in ("r",):
+            if isinstance(a.get(k), dict):
+                hs.append(a[k].get("c"))
+        return [h for h in hs if isinstance(h, str)]
+
+    def prepare_total(self, a):
+        """prepare(), total: a call on an object the specification says exists but the library never
+        produced (a derived bundle that is missing, say) is recorded as the pseudo-exception
+        NoSuchObject instead of stopping the replay."""
+        missing = [h for h in self.named_handles(a) if h not in self.h]
+        if missing:
+            def run():
+                raise NoSuchObject(missing[0])
+            return run
+        return self.prepare(a)
+
     def step(self, a, want_pre):
         pre = self.observe() if want_pre else None
         exc = "none"
-        thunk = self.prepare(a)
+        thunk = self.prepare_total(a)
         try:
             res = thunk()
         except Exception as e:  # recorded, judged by the clauses
@@ -664,7 +694,7 @@ def run_behaviour(tid, init, hist, frm, seed=0):
     steps = []
     for i, a in enumerate(hist, start=1):
         if i < frm:
-            thunk = w.prepare(a)
+            thunk = w.prepare_total(a)
             try:
                 thunk()
             except Exception:
